@@ -6,6 +6,7 @@ harness/c02.py).  `inst j = jd1 + jd2`.
 -/
 import Midgard.Model.TimeFormat
 import Midgard.Generated.TimeScaleTables
+import Midgard.Proofs.Calendar
 import Mathlib.Tactic.Linarith
 import Mathlib.Tactic.FieldSimp
 import Mathlib.Tactic.Ring
@@ -100,17 +101,15 @@ theorem dt_inst (dt : DateTime) : (dtToJds dt).inst = jd2000dt + (dt : Rat) / (u
 theorem dt_normalised (dt : DateTime) :
     (∃ k : Int, (dtToJds dt).jd1 = (k : Rat) + 1 / 2) ∧ 0 ≤ (dtToJds dt).jd2 ∧ (dtToJds dt).jd2 < 1 := by
   have hpos : (0 : Int) < usPerDay := by decide
-  have h1 : 0 ≤ dt - dt.fdiv usPerDay * usPerDay := by
+  have h1 : 0 ≤ dt - (dt / usPerDay) * usPerDay := by
     have := Int.emod_nonneg dt (ne_of_gt hpos)
-    rw [Int.fdiv_eq_ediv_of_nonneg _ (le_of_lt hpos)]
     have e := Int.emod_def dt usPerDay
     linarith [Int.mul_comm (dt / usPerDay) usPerDay]
-  have h2 : dt - dt.fdiv usPerDay * usPerDay < usPerDay := by
+  have h2 : dt - (dt / usPerDay) * usPerDay < usPerDay := by
     have := Int.emod_lt_of_pos dt hpos
-    rw [Int.fdiv_eq_ediv_of_nonneg _ (le_of_lt hpos)]
     have e := Int.emod_def dt usPerDay
     linarith [Int.mul_comm (dt / usPerDay) usPerDay]
-  refine ⟨⟨2451544 + dt.fdiv usPerDay, by simp only [dtToJds, jd2000dt]; push_cast; ring⟩, ?_, ?_⟩
+  refine ⟨⟨2451544 + (dt / usPerDay), by simp only [dtToJds, jd2000dt]; push_cast; ring⟩, ?_, ?_⟩
   · simp only [dtToJds]
     apply div_nonneg
     · exact_mod_cast h1
@@ -123,10 +122,10 @@ theorem dt_normalised (dt : DateTime) :
 sub-day microseconds are each integers, so neither `timedelta` rounds) -/
 theorem dt_readback (dt : DateTime) : dtFromJds (dtToJds dt) = dt := by
   simp only [dtFromJds, dtToJds, jd2000dt]
-  have e1 : ((4903089 / 2 : Rat) + ((dt.fdiv usPerDay : Int) : Rat) - 4903089 / 2) * (usPerDay : Rat)
-      = ((dt.fdiv usPerDay * usPerDay : Int) : Rat) := by push_cast; ring
-  have e2 : (((dt - dt.fdiv usPerDay * usPerDay : Int) : Rat) / (usPerDay : Rat)) * (usPerDay : Rat)
-      = ((dt - dt.fdiv usPerDay * usPerDay : Int) : Rat) := by
+  have e1 : ((4903089 / 2 : Rat) + (((dt / usPerDay) : Int) : Rat) - 4903089 / 2) * (usPerDay : Rat)
+      = (((dt / usPerDay) * usPerDay : Int) : Rat) := by push_cast; ring
+  have e2 : (((dt - (dt / usPerDay) * usPerDay : Int) : Rat) / (usPerDay : Rat)) * (usPerDay : Rat)
+      = ((dt - (dt / usPerDay) * usPerDay : Int) : Rat) := by
     have : ((usPerDay : Int) : Rat) ≠ 0 := by norm_num [usPerDay]
     field_simp
   rw [e1, e2, rhe_int, rhe_int]; ring
@@ -243,9 +242,8 @@ theorem trunc_error (f : TextFmt) (dt : DateTime) :
       | .isot | .iso | .yday => 1 / (usPerDay : Rat)
       | .date => 1
       | .yyddd | .yyyyddd => 1 / 86400 := by
-  have key : ∀ n : Int, 0 < n → 0 ≤ dt - dt.fdiv n * n ∧ dt - dt.fdiv n * n < n := by
+  have key : ∀ n : Int, 0 < n → 0 ≤ dt - (dt / n) * n ∧ dt - (dt / n) * n < n := by
     intro n hn
-    rw [Int.fdiv_eq_ediv_of_nonneg _ (le_of_lt hn)]
     have e := Int.emod_def dt n
     have a := Int.emod_nonneg dt (ne_of_gt hn)
     have b := Int.emod_lt_of_pos dt hn
@@ -263,9 +261,54 @@ theorem trunc_error (f : TextFmt) (dt : DateTime) :
     | (obtain ⟨a, b⟩ := key usPerSec (by decide)
        refine ⟨div_nonneg (by exact_mod_cast a) (le_of_lt hU), ?_⟩
        rw [div_lt_iff₀ hU]
-       have : ((dt - dt.fdiv usPerSec * usPerSec : Int) : Rat) < (usPerSec : Rat) := by exact_mod_cast b
+       have : ((dt - (dt / usPerSec) * usPerSec : Int) : Rat) < (usPerSec : Rat) := by exact_mod_cast b
        have e : (1 : Rat) / 86400 * (usPerDay : Rat) = (usPerSec : Rat) := by norm_num [usPerDay, usPerSec]
        rw [e]; exact this)
+
+
+/-! ### Calendar: the civil date printed by the text formats determines the day (all years) -/
+
+/-- converting a day number to a civil date and back is the identity, for every day number, and
+the month and day are valid -/
+theorem calendar_roundtrip (n : Int) :
+    daysFromCivil (civilFromDays n).1 (civilFromDays n).2.1 (civilFromDays n).2.2 = n ∧
+    1 ≤ (civilFromDays n).2.1 ∧ (civilFromDays n).2.1 ≤ 12 ∧ 1 ≤ (civilFromDays n).2.2 ∧ (civilFromDays n).2.2 ≤ 31 := by
+  refine ⟨daysFromCivil_civilFromDays n, ?_⟩
+  have := days_civil (n + epoch2000)
+  simpa only [civilFromDays] using this.2
+
+/-- the calendar/clock fields the text formats print determine the datetime exactly: reading the
+fields back gives the same microsecond count -/
+theorem fields_roundtrip (dt : Int) : ofFields (fieldsOf dt) = dt := by
+  have hd := daysFromCivil_civilFromDays (dt / 86400000000)
+  have e0 := Int.emod_def dt 86400000000
+  have r0 := Int.emod_nonneg dt (show (86400000000 : Int) ≠ 0 by decide)
+  have r1 := Int.emod_lt_of_pos dt (show (0 : Int) < 86400000000 by decide)
+  simp only [fieldsOf, ofFields, usPerDay, usPerSec]
+  rw [hd]
+  generalize hrem : dt - dt / 86400000000 * 86400000000 = rem
+  have h0 : 0 ≤ rem := by omega
+  generalize hsecs : rem / 1000000 = secs
+  have s0 : 0 ≤ secs := by omega
+  have key : (secs / 3600 * 60 + secs / 60 % 60) * 60 + secs % 60 = secs := by omega
+  rw [key, ← hrem]
+  ring
+
+/-- clock fields are in range -/
+theorem fields_range (dt : Int) :
+    0 ≤ (fieldsOf dt).hour ∧ (fieldsOf dt).hour < 24 ∧ 0 ≤ (fieldsOf dt).minute ∧ (fieldsOf dt).minute < 60 ∧
+    0 ≤ (fieldsOf dt).second ∧ (fieldsOf dt).second < 60 ∧ 0 ≤ (fieldsOf dt).micro ∧ (fieldsOf dt).micro < 1000000 := by
+  have e0 := Int.emod_def dt 86400000000
+  have r0 := Int.emod_nonneg dt (show (86400000000 : Int) ≠ 0 by decide)
+  have r1 := Int.emod_lt_of_pos dt (show (0 : Int) < 86400000000 by decide)
+  simp only [fieldsOf, usPerDay, usPerSec]
+  generalize hrem : dt - dt / 86400000000 * 86400000000 = rem
+  have h0 : 0 ≤ rem := by omega
+  have h1 : rem < 86400000000 := by omega
+  generalize hsecs : rem / 1000000 = secs
+  have s0 : 0 ≤ secs := by omega
+  have s1 : secs < 86400 := by omega
+  refine ⟨by omega, by omega, by omega, by omega, by omega, by omega, by omega, by omega⟩
 
 /-! ### Constants of the format classes -/
 
@@ -311,4 +354,7 @@ end Midgard.Props.C02
 #print axioms Midgard.Props.C02.jy_roundtrip
 #print axioms Midgard.Props.C02.jy_normalised
 #print axioms Midgard.Props.C02.trunc_error
+#print axioms Midgard.Props.C02.calendar_roundtrip
+#print axioms Midgard.Props.C02.fields_roundtrip
+#print axioms Midgard.Props.C02.fields_range
 #print axioms Midgard.Props.C02.constants
